@@ -113,6 +113,7 @@ class Kernel:
         self.chaos_steps = None  # after this many steps the policy is forced benign
         self.main_task = None
         self.harness_error = None
+        self.finished = False
 
     # ------------------------------------------------------------------ tasks
     def add_task(self, name, label, role, index, body):
@@ -122,6 +123,7 @@ class Kernel:
 
     def _thread_main(self, task):
         task.lock.acquire()  # wait for the first scheduling
+        self.current = task
         try:
             if task.aborted:
                 raise SimAbort()
@@ -137,21 +139,43 @@ class Kernel:
         finally:
             task.state = "done"
             task.pending = None
+            self.current = None
+            self._pass_baton()
+
+    def _pass_baton(self):
+        """The calling thread is done or parked for good: schedule and wake whoever is next."""
+        if self.finished:
             self.ctl.release()
+        else:
+            self._handoff(self._schedule_safe())
+
+    def _handoff(self, nxt):
+        if nxt is None:
+            self.ctl.release()  # run over: wake the controller
+            return
+        if nxt.thread is None:
+            nxt.thread = threading.Thread(target=self._thread_main, args=(nxt,), name=nxt.name, daemon=True)
+            nxt.state = "parked"
+            nxt.thread.start()
+        nxt.lock.release()
 
     def seam(self, op):
-        """Called by the running task: park at `op`; returns True if resumed by a time-out."""
+        """Called by the running task: park at `op`; returns True if resumed by a time-out.
+
+        The scheduler runs in the calling thread: if it picks this task again there is no context
+        switch at all, otherwise the baton goes directly to the chosen task's thread."""
         task = self.current
         if task is None or task.thread is not threading.current_thread():
             raise HarnessError("seam() called outside the running task")
         if task.aborted or task.killed:
             task.spins += 1
             if task.spins > 1000:
-                # pathological code that swallows BaseException in a loop: give the baton back for
+                # pathological code that swallows BaseException in a loop: give the baton away for
                 # good and park this (daemon) thread forever
                 task.state = "done"
                 task.pending = None
-                self.ctl.release()
+                self.current = None
+                self._pass_baton()
                 lk = _thread.allocate_lock()
                 lk.acquire()
                 lk.acquire()
@@ -159,8 +183,12 @@ class Kernel:
         op.t_start = self.now
         task.pending = op
         task.state = "parked"
-        self.ctl.release()
-        task.lock.acquire()
+        self.current = None
+        nxt = self._schedule_safe()
+        if nxt is not task:
+            self._handoff(nxt)
+            task.lock.acquire()
+        self.current = task
         task.state = "running"
         if task.aborted:
             raise SimAbort()
@@ -170,17 +198,6 @@ class Kernel:
         to = task.timed_out
         task.timed_out = False
         return to
-
-    def _resume(self, task):
-        """Kernel side: give the baton to `task` and wait until it parks again or ends."""
-        self.current = task
-        if task.thread is None:
-            task.thread = threading.Thread(target=self._thread_main, args=(task,), name=task.name, daemon=True)
-            task.state = "parked"
-            task.thread.start()
-        task.lock.release()
-        self.ctl.acquire()
-        self.current = None
 
     # ------------------------------------------------------------------ scheduling
     def enabled_actions(self):
@@ -200,17 +217,46 @@ class Kernel:
         return acts
 
     def run(self, main_task):
-        """Run until `main_task` is done or a hang is declared. Returns None."""
+        """Run until `main_task` is done or a hang is declared (called by the controlling thread)."""
         self.main_task = main_task
+        nxt = self._schedule_safe()
+        if nxt is not None:
+            self._handoff(nxt)
+            self.ctl.acquire()
+
+    def _schedule_safe(self):
+        try:
+            return self._schedule()
+        except BaseException as e:
+            self.harness_error = e
+            self.finished = True
+            return None
+
+    def _schedule(self):
+        """Take scheduling steps until a task has to run; returns it, or None when the run is over."""
+        main_task = self.main_task
         benign = self.policy.benign
-        while main_task.state != "done" and self.harness_error is None:
+        while True:
+            if (
+                self.frozen_events >= self.livelock_events
+                and self.now - self.frozen_since >= self.livelock_seconds
+                and self.hang is None
+            ):
+                self.hang = (
+                    "livelock",
+                    "%d consecutive idle waits (%.1f simulated s) with nothing else able to move; %s"
+                    % (self.frozen_events, self.now - self.frozen_since, self._describe_blocked()),
+                )
+            if self.hang is not None or main_task.state == "done" or self.harness_error is not None:
+                self.finished = True
+                return None
             acts = self.enabled_actions()
             if not acts:
                 self.hang = ("deadlock", self._describe_blocked())
-                break
+                continue
             if self.steps >= self.max_steps:
                 self.hang = ("step-cap", "steps=%d" % self.steps)
-                break
+                continue
             calm = self.chaos_steps is not None and self.steps >= self.chaos_steps
             idx = (benign if calm else self.policy.pick)(self, acts)
             act = acts[idx]
@@ -227,19 +273,12 @@ class Kernel:
                 self.frozen_events += 1
             elif act.kind != "task" or act.target is not main_task:
                 self.frozen_events = 0
-            self._execute(act)
-            if (
-                self.frozen_events >= self.livelock_events
-                and self.now - self.frozen_since >= self.livelock_seconds
-            ):
-                self.hang = (
-                    "livelock",
-                    "%d consecutive idle waits (%.1f simulated s) with nothing else able to move; %s"
-                    % (self.frozen_events, self.now - self.frozen_since, self._describe_blocked()),
-                )
-                break
+            t = self._execute(act)
+            if t is not None:
+                return t
 
     def _execute(self, act):
+        """Perform the bookkeeping of an action; returns the task to resume for task/timeout actions."""
         if act.kind == "task":
             t = act.target
             op = t.pending
@@ -248,8 +287,8 @@ class Kernel:
                 self.now += op.timeout
             if self.on_step:
                 self.on_step(self, act, op)
-            self._resume(t)
-        elif act.kind == "timeout":
+            return t
+        if act.kind == "timeout":
             t = act.target
             op = t.pending
             self._note(act.label, "timeout:" + op.kind, op.detail)
@@ -262,13 +301,13 @@ class Kernel:
             if self.on_step:
                 self.on_step(self, act, op)
             t.timed_out = True
-            self._resume(t)
-        else:
-            # feeder / fault actions are plain callables run by the kernel thread
-            detail = act.arg(act)
-            self._note(act.label, act.kind, detail or "")
-            if self.on_step:
-                self.on_step(self, act, None)
+            return t
+        # feeder / fault / signal actions are plain callables run by whichever thread is scheduling
+        detail = act.arg(act)
+        self._note(act.label, act.kind, detail or "")
+        if self.on_step:
+            self.on_step(self, act, None)
+        return None
 
     def _note(self, label, kind, detail):
         self.trace.append((label, kind, detail))
@@ -287,10 +326,12 @@ class Kernel:
 
     def teardown(self):
         """Unwind every thread that is still parked (killed, blocked or left over)."""
+        self.finished = True
         for t in self.tasks:
             if t.thread is not None and t.state != "done":
                 t.aborted = True
-                self._resume(t)
+                t.lock.release()
+                self.ctl.acquire()
         for t in self.tasks:
             if t.thread is not None and t.spins <= 1000:
                 t.thread.join(5.0)
